@@ -109,7 +109,9 @@ struct C09 : Prop {
 				J ev = J::arr(); J e = J::obj(); e.set("at_us", 0); e.set("node", pc::jaddr(ns[k].addr));
 				if (ns[k].present) {
 					e.set("topo", "lost"); ns[k].present = false;
-					if (ns[k].iface) { for (auto &y : ns) if (y.addr.size() > ns[k].addr.size() && std::equal(ns[k].addr.begin(), ns[k].addr.end(), y.addr.begin())) y.present = false; ph.set("hub_lost", true); }
+					if (ns[k].iface) { for (auto &y : ns) if (y.addr.size() > ns[k].addr.size() && std::equal(ns[k].addr.begin(), ns[k].addr.end(), y.addr.begin())) y.present = false; ph.set("hub_lost", true);
+						// the interface repeats the notice (its acknowledgement was late): must change nothing
+						if (r.chance(400)) { J fs = J::arr(); J f = J::obj(); f.set("kind", "dup"); f.set("a", (int) r.below(2)); fs.push(f); e.set("faults", fs); } }
 					// the notice itself is lost on the bus: the host still believes the board connected when it logs in again (possibly elsewhere)
 					// (it logs in again in the very next step: an absent board that the host keeps commanding answers nothing and its requests pile up)
 					if (!ns[k].iface && r.chance(200)) { J fs = J::arr(); J f = J::obj(); f.set("kind", "lose"); fs.push(f); e.set("faults", fs); relogin_next = (int) k; }
